@@ -89,7 +89,7 @@ func (state *RuntimeState) BootstrapOtpAuthHandler(w http.ResponseWriter,
 		return
 	}
 	_, err = state.updateAuthCookieAuthlevel(w, r,
-		authData.AuthType|AuthTypeBootstrapOTP)
+		authData.Username, authData.AuthType|AuthTypeBootstrapOTP)
 	if err != nil {
 		logger.Printf("Auth Cookie NOT found ? %s", err)
 		state.writeFailureResponse(w, r, http.StatusInternalServerError,
